@@ -25,6 +25,7 @@ MPCT = 'multipart/byteranges; boundary=String_separator'
 OCTET = 'application/octet-stream'
 VERSIONS = ['HTTP/0.9', 'HTTP/1.0', 'HTTP/1.1', 'HTTP/2.0']
 RESERVED = ('Content-Type', 'Content-Range', 'Content-Length')
+PASS2 = os.environ.get('RWS_C15_PASS2', '1') != '0'      # 0: only the classes of the first audit pass (to show what the second pass adds)
 # Unicode White_Space (what Rust's char::is_whitespace / str::trim use)
 WS = set('\t\n\x0b\x0c\r \x85\xa0\u1680\u2000\u2001\u2002\u2003\u2004\u2005\u2006\u2007\u2008\u2009\u200a\u2028\u2029\u202f\u205f\u3000')
 
@@ -433,6 +434,113 @@ def run(res, tier, seed):
         for n in (1, 2, 3):
             emit(mk(small_parts(n), version=v), 'version')
 
+    # 6. second audit pass (vlib/gen_c15.py, lower half): relations inside the input and between two calls that a well-meant feature or clean-up would hinge on
+    history = []
+    if PASS2:
+        # 6a. a multi-byte character across EVERY byte offset below 400 of a header value, a header name, a single content type, a part content type (first / last part)
+        for label, t in G.every_offset_strings(quick):
+            emit(mk(small_parts(1), [('X', t), ('Host', 'h')]), 'every-offset value')
+            emit(mk(small_parts(2), [('Host', 'h'), ('X-Long', 'p' + t)]), 'every-offset value', inst=False)
+            emit(mk(small_parts(1), [(t, 'v')]), 'every-offset name', inst=False)
+            b = rng.bytes(5)
+            emit(mk([('bytes', 0, 5, '5', t, b)]), 'every-offset single content type', inst=False)
+            o = small_parts(2)
+            emit(mk([o[0][:4] + (t,) + o[0][5:], o[1]]), 'every-offset part content type', inst=False)
+            emit(mk([o[0], o[1][:4] + (t,) + o[1][5:]]), 'every-offset part content type')
+        # 6b. ... and of a body (to 4 KiB and beyond: every chunk size), single and as the first / last part
+        for i, (label, b) in enumerate(G.every_offset_bodies(quick)):
+            o = small_parts(1, i)[0]
+            emit(mk([part_of(b)[:4] + ('text/plain; charset=utf-8', b)]), 'every-offset body', inst=False)
+            emit(mk([part_of(b), o] if i % 2 else [o, part_of(b)]), 'every-offset body', inst=False)
+        # 6c. body lengths that are a multiple of a chunk size (and one off)
+        for i, n in enumerate(G.chunk_multiple_sizes(quick)):
+            b = rng.bytes(n)
+            if i % 3 == 1: b = b.replace(b'\n', b'\x0b')           # one line
+            emit(mk([part_of(b)]), 'chunk-multiple body', inst=i % 4 == 0)
+            emit(mk([part_of(b), small_parts(1)[0]] if i % 2 else [small_parts(1)[0], part_of(b), part_of(b'')]), 'chunk-multiple body', inst=False)
+        # 6d. characters that fold onto ASCII letters: content types next to multipart/byteranges and to the default type, method spellings next to HEAD / OPTIONS,
+        #     header names and values that are equal only after folding / normalisation
+        for ct in G.FOLD_SINGLE_CONTENT_TYPES:
+            b = rng.bytes(rng.range(0, 9))
+            emit(mk([('bytes', 0, len(b), str(len(b)), ct, b)]), 'fold single content type')
+        for i, ct in enumerate(G.FOLD_PART_CONTENT_TYPES):
+            ps = small_parts(2 + i % 2); k = i % len(ps)
+            ps[k] = ps[k][:4] + (ct,) + ps[k][5:]
+            emit(mk(ps), 'fold part content type', inst=i % 2 == 0)
+        for i, m_ in enumerate(G.FOLD_METHODS):
+            emit(mk(small_parts(1 + i % 3)), 'fold method', method=m_, inst=False)
+        for i, (label, hs) in enumerate(G.folding_header_lists()):
+            emit(mk(small_parts(1), hs), label); emit(mk(small_parts(2 + i % 2), hs), label, inst=False)
+        # 6e. characters whose low byte is CR, LF, blank, ':', '-', '"', ';', '=', '/', NUL
+        for i, (label, hs) in enumerate(G.low_byte_header_lists()):
+            emit(mk(small_parts(1), hs), label); emit(mk(small_parts(2), hs), label, inst=False)
+        lbs = G.low_byte_content_types()
+        for i, ct in enumerate(lbs):
+            emit(mk([('bytes', 0, 2, '2', ct, b'ab')]), 'low-byte single content type', inst=False)
+            if i % 2 == 0:
+                emit(mk([p_[:4] + (lbs[(i + j) % len(lbs)],) + p_[5:] for j, p_ in enumerate(small_parts(2 + i % 3))]), 'low-byte part content type', inst=False)
+        # 6f. quoting, escaping, comment signs, trailing separators, parameters: header lists and content types
+        for i, (label, hs) in enumerate(G.syntax_header_lists()):
+            emit(mk(small_parts(1 + i % 2), hs), label, inst=i % 2 == 0)
+        scts = G.syntax_content_types()
+        for i, ct in enumerate(scts):
+            emit(mk([('bytes', 0, 2, '2', ct, b'ab')]), 'syntax single content type', inst=False)
+            if not trimmed(ct) or ct == '': continue
+            ps = small_parts(2 + i % 2); k = i % len(ps)
+            ps[k] = ps[k][:4] + (ct,) + ps[k][5:]
+            emit(mk(ps), 'syntax part content type', inst=False)
+        # 6g. end - start against the body length (equal, one less, one more, far off), size against the body length and against end; size below the body length
+        rels = G.range_body_relations()
+        for i, (L, s_, e_, z_) in enumerate(rels):
+            b = bytes((65 + (i + j) % 26) for j in range(L))
+            emit(mk([('bytes', s_, e_, str(z_), 'text/plain', b)], status=[(206, 'Partial Content'), (200, 'OK'), (416, 'Range Not Satisfiable')][i % 3]), 'range-body relation', inst=i % 3 == 0)
+            if i % 2 == 0:
+                L2, s2, e2, z2 = rels[(i * 7 + 3) % len(rels)]
+                ps = [('bytes', s_, e_, str(z_), 'text/plain', b), ('bytes', s2, e2, str(z2), 'image/png', bytes(range(L2)))]
+                emit(mk(ps if i % 4 else ps[::-1], status=[(206, 'Partial Content'), (200, 'OK')][(i // 2) % 2]), 'range-body relation', inst=i % 8 == 0)
+        # 6h. every status x {whole body, proper slice, empty body with 0-0/0, empty body with a slice description, two slices, three parts with an empty one}
+        for i, st_ in enumerate(table):
+            shapes = [[('bytes', 0, 4, '4', 'text/plain', b'body')], [('bytes', 2, 5, '10', 'text/plain', b'cdef')], [('bytes', 0, 0, '0', 'text/plain', b'')],
+                      [('bytes', 3, 7, '9', 'text/html', b'')], [('bytes', 0, 2, '10', 'text/plain', b'abc'), ('bytes', 4, 4, '10', 'text/plain', b'e')],
+                      [('bytes', 0, 1, '1', 'text/plain', b'a'), ('bytes', 0, 0, '0', 'image/png', b''), ('bytes', 1, 1, '1', 'text/plain', b'\r\n')]]
+            for j, ps in enumerate(shapes):
+                emit(mk(ps, [('Host', 'localhost'), ('Accept-Ranges', 'bytes')][:1 + (i + j) % 2], status=st_), 'status x range-shape', inst=(i + j) % 2 == 0)
+        # 6i. every version x headers a version-aware serialiser would treat specially x {1, 2, 3 parts}; every version x statuses with special body rules
+        for v in VERSIONS:
+            for n in (1, 2, 3):
+                emit(mk(small_parts(n), list(G.WELL_KNOWN_PAIRS), version=v), 'version x well-known headers')
+                emit(mk(small_parts(n), [('Connection', 'keep-alive'), ('Transfer-Encoding', 'chunked'), ('Host', 'h')][:n], version=v), 'version x well-known headers', inst=False)
+            for st_ in [(100, 'Continue'), (101, 'Switching Protocols'), (204, 'No Content'), (205, 'Reset Content'), (206, 'Partial Content'), (304, 'Not Modified'), (416, 'Range Not Satisfiable')]:
+                if st_ in table:
+                    emit(mk(small_parts(1), status=st_, version=v), 'version x status'); emit(mk(small_parts(2), status=st_, version=v), 'version x status', inst=False)
+        # 6j. HEAD / OPTIONS answered with several parts; a request whose Range header names (does not name) the range answered
+        for m_ in ('HEAD', 'OPTIONS'):
+            for n in (2, 3, 6):
+                emit(mk(small_parts(n)), 'head-multipart', method=m_, inst=False)
+        for rq in ['bytes=2-5', 'bytes=2-4', 'bytes=0-', 'bytes=2-5, 7-8', 'bytes=7-8, 2-5', 'bytes=-4']:
+            q = ('GET', '/f', 'HTTP/1.1', [('Range', rq)], b'')
+            emit(mk([('bytes', 2, 5, '10', 'text/plain', b'cdef')], status=(206, 'Partial Content')), 'request-range relation', inst=False, req=q)
+            emit(mk([('bytes', 2, 5, '10', 'text/plain', b'cdef'), ('bytes', 7, 8, '10', 'text/plain', b'hi')], status=(206, 'Partial Content')), 'request-range relation', inst=False, req=q)
+        # 6k. counts beyond a byte: 255 / 256 / 257 parts; 65 537 lines in one part
+        for n in (255, 256, 257):
+            emit(mk(small_parts(n)), 'part-count %d' % n, inst=False)
+        if not quick:
+            emit(mk([small_parts(1)[0], part_of(b'\n' * 65537)]), 'body-size 65537 lines', inst=False)
+        # 6l. second use: a handful of responses written (and, below, read) in an order in which a longer, a shorter, a related and a failing call precede each other
+        long6 = [part_of(('part %d ' % k_).encode() * (20 + k_) + b'\r\n', k_) for k_ in range(6)]
+        hr = [mk(long6, [('Host', 'localhost'), ('X-Trace', 't' * 200)], status=(206, 'Partial Content')),
+              mk([part_of(b'ab')], [('Host', 'localhost')], status=(200, 'OK')),
+              mk([part_of(b'x', 1), part_of(b'', 2)], [], status=(206, 'Partial Content')),
+              mk(long6, [('Host', 'localhost'), ('X-Trace', 't' * 200)], status=(206, 'Partial Content'), version='HTTP/1.0'),
+              mk([part_of(b'ab' * 300)], [('Host', 'localhost')], status=(200, 'OK')),
+              mk(long6[:5], [('Host', 'localhost'), ('X-Trace', 't' * 200)], status=(206, 'Partial Content'))]
+        for step in G.history_plan():
+            if step == 'E':
+                emit(mk([], [('Host', 'x')]), 'history (no parts)', inst=False)     # outside the claimed class: differential only
+            else:
+                history.append((len(lines), step, hr[step]))
+                emit(hr[step], 'history', inst=step % 2 == 0)
+
     # regression inputs of the repaired defects and the open one
     f19 = dict(version='HTTP/1.1', status=206, reason='Partial Content', headers=[('Host', 'localhost')],
                parts=[('bytes', 2, 5, '10', 'text/plain', b'cdef')])
@@ -509,6 +617,16 @@ def run(res, tier, seed):
                 add2('respparse', hx(raw[:j] + cl.encode() + raw[k:]), ('content-length', cl))
             else:
                 add2('respparse', hx(raw[:be] + b'\r\nContent-Length: ' + cl.encode() + raw[be:]), ('content-length', cl))
+        if PASS2:
+            # a declared length that is a legal number but not the length of what follows (0, one less, one more, far beyond any allocation): differential, and nothing may panic or abort
+            nb = len(raw) - be - 4
+            for cl in ['0', str(max(nb - 1, 0)), str(nb + 1), '2147483647', '2147483648', '4294967296', '1000000000000', '9223372036854775807', '9223372036854775808', '18446744073709551615',
+                       '00000000000000000000004', '+0']:
+                if b'\r\nContent-Length: ' in raw[:be + 2]:
+                    j = raw.find(b'\r\nContent-Length: ') + 18; k = raw.find(b'\r\n', j)
+                    add2('respparse', hx(raw[:j] + cl.encode() + raw[k:]), ('nocheck', 'declared length differs from the body'))
+                else:
+                    add2('respparse', hx(raw[:be] + b'\r\nContent-Length: ' + cl.encode() + raw[be:]), ('nocheck', 'declared length differs from the body'))
         step = 1 if len(raw) < 200 else 7
         for i in range(0, len(raw), step):
             add2('respparse', hx(raw[:i]), ('nocheck', 'truncated'))
@@ -643,6 +761,60 @@ def run(res, tier, seed):
             mp(bytes(b), SEP)
             mp(body[:i], SEP)
 
+    if PASS2:
+        # second audit pass. The head of EVERY part damaged (not only of the first): a part without its Content-Range or its Content-Type line is a broken multipart structure
+        def py_body(ps, drop=None):
+            out = b''
+            for k_, (u, s_, e_, z_, ct, b) in enumerate(ps):
+                out += (b'\r\n' if k_ else b'') + b'--' + SEP + b'\r\n'
+                if drop != (k_, 'ct'): out += b'Content-Type:  ' + ct.encode() + b'\r\n'
+                if drop != (k_, 'cr'): out += f'Content-Range:  bytes {s_}-{e_}/{z_}\r\n'.encode()
+                out += b'\r\n' + b
+            return out + b'\r\n--' + SEP
+        for raw, r in multis:
+            be = raw.find(b'\r\n\r\n') + 4
+            if raw[be:] != py_body(r['parts']): continue          # judged by the serialiser clause
+            for k_ in range(len(r['parts'])):
+                add2('respparse', hx(raw[:be] + py_body(r['parts'], (k_, 'cr'))), ('no-part-header', b'Content-Range line of part %d of %d removed' % (k_, len(r['parts']))))
+                add2('respparse', hx(raw[:be] + py_body(r['parts'], (k_, 'ct'))), ('no-part-header', b'Content-Type line of part %d of %d removed' % (k_, len(r['parts']))))
+        # a multi-byte character across every byte offset of the texts an error path handles (a message or log line capped at a byte offset)
+        MPH = b'HTTP/1.1 206 Partial Content\r\nContent-Type: ' + MPCT.encode() + b'\r\n\r\n'
+        good = b'--String_separator\r\nContent-Type:  text/plain\r\nContent-Range:  bytes 0-3/3\r\n\r\nabc\r\n'
+        for label, t in G.every_offset_strings(quick):
+            tb = t.encode()
+            add2('resphdr', hx(tb), ('nocheck', 'every-offset: header line without separator'))
+            add2('resphdr', hx(tb + b'\r\n'), ('nocheck', 'every-offset: header line without separator'))
+            add2('respparse', hx(b'HTTP/1.1 200 OK\r\n' + tb + b'\r\n\r\nab'), ('nocheck', 'every-offset: header line without separator'))
+            add2('respparse', hx(b'HTTP/1.1 200 OK\r\nHost: h\r\n' + tb + b':' + tb + b'\r\nContent-Type: text/plain\r\n\r\nab'), ('nocheck', 'every-offset: header line without separator'))
+            add2('respparse', hx(b'HTTP/1.1 200 OK\r\nContent-Length: ' + tb + b'\r\n\r\nab'), ('content-length', t[:20] + '…'))
+            add2('respparse', hx(b'HTTP/1.1 200 OK\r\nContent-Type: text/plain\r\nContent-Range: bytes 0-2/' + tb + b'\r\nContent-Length: 2\r\n\r\nab'), ('nocheck', 'every-offset: Content-Range value'))
+            add2('respparse', hx(b'HTTP/1.1 200 ' + tb + b'\r\n\r\n'), ('phrase', t[:20] + '…'))
+            add2('respparse', hx(b'HTTP/1.1 ' + tb + b' OK\r\n\r\n'), ('status', t[:20] + '…'))
+            add2('respparse', hx(tb + b' 200 OK\r\n\r\n'), ('version', tb))
+            st('HTTP/1.1 200 ' + t, ('st-err', 'phrase')); st('HTTP/1.1 ' + t + ' OK\r\n', ('st-err', 'status')); st(t + ' 200 OK\r\n', ('st-nocheck', 0)); st(t, ('st-err', 'fields'))
+            crv(t); crv('bytes 0-4/' + t); crv('bytes ' + t + '-4/10'); crv(t + ' 0-4/10')
+            add2('respparse', hx(MPH + tb + b'\r\n' + good + b'--String_separator'), ('no-opening-boundary', tb[:20]))
+            add2('respparse', hx(MPH + good + b'--String_separator\r\nContent-Type:  text/plain\r\nContent-Range:  bytes 0-3/' + tb + b'\r\n\r\nabc\r\n--String_separator'), ('nocheck', 'every-offset: part Content-Range value'))
+            add2('respparse', hx(MPH + good + b'--String_separator\r\nContent-Type:  text/plain\r\nContent-Range:  bytes 0-3/3\r\n' + tb + b'\r\nabc\r\n--String_separator'), ('no-blank-line', 'every-offset'))
+            add2('respparse', hx(MPH + good + b'--String_separator\r\nContent-Type' + tb + b'\r\nContent-Range:  bytes 0-3/3\r\n\r\nabc\r\n--String_separator'), ('nocheck', 'every-offset: part header line without separator'))
+            add2('respparse', hx(MPH + good + b'--String_separator\r\nContent-Type:  text/plain\r\nContent-Range:  bytes 0-3/3\r\n\r\n' + tb), ('no-closing-boundary', 'every-offset'))
+            mp(good.replace(b'0-3/3', tb) + b'--String_separator', SEP); mp(tb + b'\r\n' + good, SEP); mp(good + b'--String_separator', tb)
+        for code in ['２００', '٢٠٠', '2００', '200​', '２00']:
+            add2('respparse', hx(b'HTTP/1.1 ' + code.encode() + b' OK\r\nContent-Type: text/plain\r\n\r\nab'), ('nocheck', 'status digits of another script'))
+        # second use: the responses of the history plan read back in the planned order, a failing input between them
+        hraw = {}
+        for idx, step, r_ in history:
+            if impl[idx].startswith('ok '): hraw[step] = C.unhx(impl[idx].split(' ')[1])
+        if len(hraw) == 6:
+            fails = [(hraw[0][:len(hraw[0]) - 5], ('no-closing-boundary', 'history')), (hraw[1].replace(b' 200 OK', b' 200 Okay', 1), ('phrase', 'history')),
+                     (hraw[2].replace(b'\r\n\r\n--String', b'\r\n\r\n--Strin', 1), ('no-opening-boundary', b'history')), (hraw[0].replace(b' 206 ', b' 299 ', 1), ('status', '299'))]
+            nf = 0
+            for step in G.history_plan():
+                if step == 'E':
+                    add2('respparse', hx(fails[nf % 4][0]), fails[nf % 4][1]); nf += 1
+                else:
+                    add2('respparse', hx(hraw[step]), ('same', hr[step]))
+
     impl2, model2 = C.run_both(lines2)
     C.compare(res, lines2, impl2, model2, 'Response::parse and its parts')
     n_rt = 0
@@ -704,7 +876,10 @@ def run(res, tier, seed):
                 'ranges at the machine-integer limits with every equality among start, end and size, part bodies (every length 0..4 over the reader\'s special bytes, every prefix and suffix and respelling '
                 'of the boundary text, boundary text in lines that are not UTF-8, bodies that look like part heads / responses / other multipart bodies, blank lines, trailing and leading blanks, NUL, BOM, '
                 'sizes 8191..65537, one long line, thousands of lines) in the first, last and a middle position and as single bodies, bodies containing the boundary line as single bodies, 7..100 parts, '
-                'equal / adjacent / overlapping / descending / all-empty part lists, 24 method spellings, request variants, every version x 1..3 parts; read back: every serialisation the implementation produced; corruptions: status digits, phrase, version, dropped CR/LF, '
+                'equal / adjacent / overlapping / descending / all-empty part lists, 24 method spellings, request variants, every version x 1..3 parts; second pass: a multi-byte character across every byte offset '
+                'below 400 of header values, header names, content types and (to 4 KiB) bodies, and of every text an error path handles; body lengths at multiples of 512..16384; content types, methods, header names and values equal only after '
+                'case folding or normalisation; characters whose low byte is CR / LF / blank / a separator; quoting, escaping, comment and trailing-separator shapes; end - start and size against the body length; every status x 6 range shapes; '
+                'every version x special headers and statuses; 255..257 parts; the head of EVERY part damaged; a declared length that is not the body length; a planned history of long / short / related / failing calls; read back: every serialisation the implementation produced; corruptions: status digits, phrase, version, dropped CR/LF, '
                 'dropped blank line, Content-Length junk, every/7th truncation, byte flips, opening/closing boundary typos, a declared boundary the opening line does not hold, the code of another row under the phrase, missing blank line per part, part-header damage; '
                 'direct ops: status line (all statuses x spellings, all codes -5..700), header line, Content-Range value, multipart reader with 7 boundaries, UTF-8 grammar probes; '
                 'a case is non-trivial when the response has at least one part or the parsed text is non-empty' % (len(table), ', '.join(BODY_KINDS[:11])))
